@@ -25,7 +25,7 @@ RULE = ("Hypothesis draws a conversion program over an opaque wrapper class W (a
         "dataclass, a second converted class W2 for chains), some wrapped in catch_value_error and failing on part of their domain; "
         "one serializer g: W -> U (optionally inherited=False); a placement in {registered, dynamic conversion=, field metadata, "
         "default_conversion=}; optionally constraints given from outside the converted type (per-call schema= or field schema: they "
-        "constrain the source data, in deserialize as in the schema); a nesting in {bare, List, Dict values, Optional, Tuple, Union with bool, field of a nested object (dataclass or NamedTuple), Deque (std registered conversion "
+        "constrain the source data, in deserialize as in the schema); a nesting in {bare, List, Dict values, Optional, Tuple, Union with bool, field of a nested object (dataclass, NamedTuple or TypedDict), Deque (std registered conversion "
         "from / to list) and a user generic Collection with registered conversions from / to List}; and "
         "5-9 data (valid data of each source, mutants, atoms).  Oracle = commuting squares evaluated with apischema itself: "
         "deserialize(nest[W], d) accepts iff the element-wise composition 'first S_i accepting d, then f_i' accepts, with equal value "
@@ -78,8 +78,9 @@ def strategy_(draw, tier):
         "chain": chance(draw, 0.2),
         "conv_object": chance(draw, 0.4),
     }
-    if prog["nest"] == "field" and prog["placement"] != "field" and chance(draw, 0.5):
-        prog["holder_nt"] = True  # the nested object is a NamedTuple (an object type that is also a Collection)
+    if prog["nest"] == "field" and prog["placement"] != "field" and chance(draw, 0.6):
+        # the nested object is a NamedTuple (an object type that is also a Collection) or a TypedDict (no class checks)
+        prog["holder_nt" if chance(draw, 0.5) else "holder_td"] = True
     if prog["nest"] == "bare" and prog["placement"] in ("registered", "dynamic", "field") and chance(draw, 0.35):
         # constraints given from outside the converted type (per-call schema= / field schema): they constrain the source data
         prog["outer"] = pick(draw, [{"min": 1}, {"max": 2}, {"max_len": 1}, {"min_items": 2}, {"min": 0, "max_len": 3}])
@@ -242,6 +243,8 @@ def render(p) -> str:
     if p["placement"] == "field":
         outer_md = (" | schema(" + ", ".join(f"{k}={v!r}" for k, v in p["outer"].items()) + ")") if p.get("outer") else ""
         lines += ["@dataclass", "class Holder:", f"    w: {nest_t} = field(metadata=conversion(deserialization=DESER, serialization=G){outer_md})", "    other: int = 0", "ROOT = Holder"]
+    elif p["nest"] == "field" and p.get("holder_td"):
+        lines += ["class HolderBase(TypedDict):", "    w: W", "class Holder(HolderBase, total=False):", "    other: int", "ROOT = Holder"]
     elif p["nest"] == "field" and p.get("holder_nt"):
         lines += ["class Holder(NamedTuple):", "    w: W", "    other: int = 0", "ROOT = Holder"]
     elif p["nest"] == "field":
@@ -342,6 +345,8 @@ def _evaluate(case, ctx, b, src):
                 raise Reject
             if "other" in d and (not isinstance(d["other"], int) or isinstance(d["other"], bool)):
                 raise Reject
+            if p.get("holder_td"):
+                return {"w": conv_one(d["w"]), **({"other": d["other"]} if "other" in d else {})}
             return mod.Holder(conv_one(d["w"]), d.get("other", 0))
         if nest in ("list", "deque", "bag"):
             if not isinstance(d, list):
@@ -510,6 +515,8 @@ def nest_value(mod, p, w):
 def nest_image(p, inner, placement):
     img = {"bare": inner, "list": [inner, inner], "map": {"k": inner}, "opt": inner, "tuple": [inner, 1], "union": inner, "field": inner,
            "deque": [inner, inner], "bag": [inner, inner]}[p["nest"]]
+    if p["nest"] == "field" and p.get("holder_td"):
+        return {"w": img}
     if placement == "field" or p["nest"] == "field":
         return {"w": img, "other": 0}
     return img
